@@ -176,6 +176,15 @@ def run(case):
             st_["single"] += 1
 
     drive.run_history(sa, case, on_eval=on_eval, before_refine=before_refine, after_refine=after_refine)
+    if (case["fseed"] // 2) % 3 == 0 and not out.violations and not case.get("rerun"):
+        # the documented way to continue from a stored refinement: the refinement container is handed back to
+        # performSpatiallyAdaptiv (refinement_container=...; lmin / lmax arguments as in the first call, no further budget);
+        # every structural clause must hold for the state that call evaluates
+        with drive.quiet():
+            sa.performSpatiallyAdaptiv(case["lmin"], case["lmax"], drive.error_operator(case), tol=-1, max_evaluations=0,
+                                       refinement_container=sa.refinement, print_output=False)
+        check(out, sub, sa, case, g, rng, "after re-entry with refinement_container", fixed_pts)
+        out.cls("re-entered-through-refinement_container")
     out.nontrivial = bool(st_["ext"] and st_["spl"])
     out.cls(drive.scale_class(case), "bounds-given-as=%s" % (case.get("bounds") or "float-arrays"))
     out.cls("version=%d" % case["version"], "estimator=%s" % case["estimator"], "boundary=%s" % case["boundary"],
